@@ -172,6 +172,49 @@ def check_table(rows, header, newick, data, samples, tree_key_expected=None, clu
     return problems
 
 
+def check_values_against_tree(rows, tree, data, samples, clusters, label):
+    """C12, 'CCF and clonal prevalence are those of that clone': the values of a table written for a KNOWN tree are compared with an independent
+    brute-force maximisation over all feasible grid assignments on that tree (ties allowed: the reported assignment must attain the maximum)."""
+    from bounded.mapccf import brute_force_map
+
+    problems = []
+    if not list(tree.nodes):
+        return problems
+    name_to_idx = {str(dp.name): dp.idx for dp in data}
+    if clusters is not None:
+        cl_of = {str(m): str(c) for m, c in zip(clusters["mutation_id"], clusters["cluster_id"])}
+        name_to_idx = {m: name_to_idx[c] for m, c in cl_of.items() if c in name_to_idx}
+    labels = tree.labels
+    D, G = tree.grid_size
+    node_val = {}
+    for r in rows:
+        if r["clone_id"] == "-1" or r["mutation_id"] not in name_to_idx:
+            continue
+        node = labels.get(name_to_idx[r["mutation_id"]])
+        if node is None:
+            continue
+        d = samples.index(r["sample_id"])
+        node_val[(node, d)] = float(r["ccf"])
+    if set(n for n, _ in node_val) != set(tree.nodes):
+        return problems  # reported elsewhere (clades of table + tree differ from the recorded tree)
+    best, logp, children, roots = brute_force_map(tree)
+    for d in range(D):
+        ks = {}
+        for v in tree.nodes:
+            k = node_val[(v, d)] * (G - 1)
+            if abs(k - round(k)) > 1e-9:
+                problems.append("%s: clone of data point(s) %s sample %s: ccf %s is not a grid value" % (label, v, samples[d], node_val[(v, d)]))
+                return problems
+            ks[v] = int(round(k))
+        if any(sum(ks[c] for c in children[v]) > ks[v] for v in tree.nodes) or sum(ks[r] for r in roots) > G - 1:
+            problems.append("%s: sample %s: table values are not feasible on the tree (a clone below the sum of its children, or top-level clones above one)" % (label, samples[d]))
+            continue
+        val = sum(logp[v][d, ks[v]] for v in tree.nodes)
+        if val < best[d] - 1e-9 * max(1.0, abs(best[d])):
+            problems.append("%s: sample %s: the table's CCFs have summed log-likelihood %.10g, the feasible maximum on this tree is %.10g (values are not those of the clones)" % (label, samples[d], val, best[d]))
+    return problems
+
+
 # ----------------------------------------------------------------------------------------------------------- scenarios
 
 
@@ -392,6 +435,8 @@ def run_c12_all_trees(tier="quick", seed=0):
                                     open(tab, "w").write(tf.extractfile("t_0/t_0_results_table.tsv").read().decode())
                             header, rows = read_table(tab)
                             problems += check_table(rows, header, open(nwk).read(), data, samples, tree_key_expected=key, clusters=clusters, label=label)
+                            if cmd in ("map", "topology"):
+                                problems += check_values_against_tree(rows, tree, data, samples, clusters, label)
                         except Exception as e:  # noqa
                             problems.append("%s raised %r" % (label, e))
                     if len(problems) > 10:
